@@ -246,6 +246,8 @@ def evaluate(ctx, prop, profile, scheds, m, mf, stats, tag, hb=None):
             C.violation(ctx, "model-disagrees:script-step-not-enabled",
                         "a history accepted by the model cannot be executed on the client: %s [schedule %s/%s]" % (st, tag, s.idx),
                         dict(replay, oracle="model", no_failing_input=True, expected="step enabled", got=st))
+        elif st.startswith("setup-refused") and prop == "C11":
+            continue   # reported above (direct oracle); nothing was run
         elif st != "ok":
             raise C.BuildError("harness trouble in schedule %s/%s: %s" % (tag, s.idx, st))
         # ---- trace validation against the extracted model ------------------------------------
